@@ -257,7 +257,10 @@ def whole_structure_case(ck, sg, st, SymmetryConstraints, ExpandAsymmetricUnit):
     data = {"sites": [[str(strata.frac(p)) for p in st[c]["xyz"]] for c in chosen], "coreUijs": coreU,
             "shuffle_seed": ck.rng.randrange(10 ** 9) if ck.rng.random() < 0.5 else None,
             "eps": None if ck.rng.random() < 0.6 else 1.0e-3, "noise_seed": ck.rng.randrange(10 ** 9)}
-    prob = whole_eval(sg, data, SymmetryConstraints, ExpandAsymmetricUnit)
+    try:
+        prob = whole_eval(sg, data, SymmetryConstraints, ExpandAsymmetricUnit)
+    except Exception as e:  # the implementation (or its result shape) broke the evaluation of this case
+        prob = "evaluation raised %r" % (e,)
     return (prob, data) if prob else None
 
 
@@ -302,6 +305,8 @@ def whole_eval(sg, data, SymmetryConstraints, ExpandAsymmetricUnit):
     scs = SymmetryConstraints(sg, P, UU) if eps is None else SymmetryConstraints(sg, P, UU, eps=eps)
     vals = {n: Fraction(float(v)).limit_denominator(10 ** 12) for n, v in scs.Upars}
     for i, fm in enumerate(scs.UFormulas()):
+        if not isinstance(fm, dict) or set(fm) != set(USYM):
+            return "Ueqns[%d] is %r: the U formulas of a listed site are missing" % (i, fm)
         for s_ in USYM:
             a, b = UIDX[s_]
             try:
